@@ -30,6 +30,14 @@ func MonitorsFor(prop string) []Monitor {
 		return []Monitor{&monC13{}}
 	case "C14":
 		return []Monitor{&monC14{}}
+	case "C16":
+		// "takes effect": the long-running monitors that read parameters from the models / queries
+		// run on behalf of C16 (their violations are reported under C16 via PropOverride)
+		return []Monitor{&monC16{}, &monC03{}, &monC06{}, &monC08{}, &monC10{}}
+	case "C20":
+		return []Monitor{&monC20{}}
+	case "C15":
+		return []Monitor{&monC15{}}
 	case "C17":
 		return []Monitor{&monC17{}}
 	}
